@@ -6,6 +6,7 @@ package c02
 
 import (
 	"context"
+	"errors"
 	"fmt"
 	"reflect"
 	"sort"
@@ -13,9 +14,12 @@ import (
 	"testing"
 	"time"
 
+	core "github.com/envoyproxy/go-control-plane/envoy/config/core/v3"
+	discovery "github.com/envoyproxy/go-control-plane/envoy/service/discovery/v3"
 	"go.uber.org/atomic"
 
 	"istio.io/istio/pilot/pkg/model"
+	"istio.io/istio/pilot/pkg/util/protoconv"
 	pxds "istio.io/istio/pilot/pkg/xds"
 	"istio.io/istio/pkg/config/schema/kind"
 	"istio.io/istio/pkg/util/sets"
@@ -868,10 +872,37 @@ func debounceCases(c *vlib.Collector, r *vlib.Rand, id *int, count int) {
 
 type fakeStream struct {
 	pxds.DiscoveryStream
-	ctx context.Context
+	ctx    context.Context
+	failAt int // the failAt-th Send of the current push fails
+	sent   int // responses sent in the current push
 }
 
 func (f *fakeStream) Context() context.Context { return f.ctx }
+
+// Send counts the responses of the current push and fails on the failAt-th one (0 = never fails).
+func (f *fakeStream) Send(*discovery.DiscoveryResponse) error {
+	if f.failAt > 0 && f.sent+1 == f.failAt {
+		return errors.New("transport is closing")
+	}
+	f.sent++
+	return nil
+}
+
+// senderGen is the generator behind the real Connection.Push of the sender scenarios: one resource per type.
+type senderGen struct{}
+
+func (senderGen) Generate(*model.Proxy, *model.WatchedResource, *model.PushRequest) (model.Resources, model.XdsLogDetails, error) {
+	return model.Resources{&discovery.Resource{Name: "r", Resource: protoconv.MessageToAny(&core.Node{Id: "r"})}}, model.DefaultXdsLogDetails, nil
+}
+
+var senderTypes = []string{"type.googleapis.com/verif.c02.A", "type.googleapis.com/verif.c02.B", "type.googleapis.com/verif.c02.C"}
+
+var senderServer = &pxds.DiscoveryServer{
+	Generators: map[string]model.XdsResourceGenerator{senderTypes[0]: senderGen{}, senderTypes[1]: senderGen{}, senderTypes[2]: senderGen{}},
+	ProxyNeedsPush: func(_ *model.Proxy, req *model.PushRequest) (*model.PushRequest, bool) {
+		return req, true
+	},
+}
 
 type fakeDelta struct {
 	pxds.DeltaDiscoveryStream
@@ -896,17 +927,30 @@ func runSender(id int, rr *vlib.Rand) dbResult {
 		closed bool
 		merged bool // an Enqueue arrived while out/handed
 		ev     any
+		stream *fakeStream // non-nil: the harness plays the Stream loop and calls the REAL Connection.Push
+		ntypes int
 	}
 	cl := make([]*client, nc)
 	for i := range cl {
 		ctx, cancel := context.WithCancel(context.Background())
 		var con *pxds.Connection
-		if rr.Chance(35) {
+		var st *fakeStream
+		nt := 0
+		if rr.Chance(25) {
+			// delta client: StreamDeltas runs pushConnectionDelta + done() inline, which cannot be called
+			// from outside; the harness calls the event's done itself
 			con = pxds.VerifNewConnection(fmt.Sprintf("d%d", i), nil, &fakeDelta{ctx: ctx})
 		} else {
-			con = pxds.VerifNewConnection(fmt.Sprintf("s%d", i), &fakeStream{ctx: ctx}, nil)
+			st = &fakeStream{ctx: ctx}
+			nt = 1 + rr.Intn(len(senderTypes))
+			wr := map[string]*model.WatchedResource{}
+			for _, tp := range senderTypes[:nt] {
+				wr[tp] = &model.WatchedResource{TypeUrl: tp}
+			}
+			proxy := &model.Proxy{ID: fmt.Sprintf("s%d", i), Type: model.SidecarProxy, Metadata: &model.NodeMetadata{}, WatchedResources: wr}
+			con = pxds.VerifNewPushConnection(fmt.Sprintf("s%d", i), st, senderServer, proxy)
 		}
-		cl[i] = &client{con: con, cancel: cancel}
+		cl[i] = &client{con: con, cancel: cancel, stream: st, ntypes: nt}
 	}
 	q := pxds.NewPushQueue()
 	sem := make(chan struct{}, capN)
@@ -955,6 +999,7 @@ func runSender(id int, rr *vlib.Rand) dbResult {
 	advance()
 	enq := func(i int) {
 		r := genReq(rr, genOpts{alwaysPush: true})
+		r.ConfigsUpdated = mkSet(cfgKeys, uint64(1+rr.Intn(edsMask))) // endpoint-only: pushConnection skips computeProxyState
 		add("SO (SEnq " + vlib.NI(i) + " " + valueOf(r).term() + ")")
 		q.Enqueue(cl[i].con, r)
 		switch cl[i].state {
@@ -966,6 +1011,50 @@ func runSender(id int, rr *vlib.Rand) dbResult {
 		case handedSt:
 			cl[i].merged = true
 			tags["enq-during-push"] = true
+		}
+		advance()
+	}
+	// finish is the rest of the Stream loop iteration for a received event: Connection.Push (real for SotW
+	// clients, with the stream failing on the k-th response now and then); an error ends the stream.
+	finish := func(i int) {
+		c := cl[i]
+		failed := false
+		if c.stream != nil {
+			c.stream.sent, c.stream.failAt = 0, 0
+			if c.closed {
+				c.stream.failAt = 1 // a cancelled stream cannot send
+			} else if rr.Chance(35) {
+				c.stream.failAt = 1 + rr.Intn(c.ntypes)
+			}
+			err := c.con.Push(c.ev)
+			want := c.ntypes
+			if c.stream.failAt > 0 {
+				want = c.stream.failAt - 1
+				tags[fmt.Sprintf("send-failed-at-response-%d", c.stream.failAt)] = true
+			}
+			if (err != nil) != (c.stream.failAt > 0) || c.stream.sent != want {
+				violated = fmt.Sprintf("client %d: Connection.Push returned err=%v after %d responses, expected failure=%v after %d", i, err, c.stream.sent, c.stream.failAt > 0, want)
+			}
+			failed = err != nil
+			tags["real-connection-push"] = true
+		} else {
+			pxds.VerifEventDone(c.ev)
+		}
+		if failed {
+			// pkg/xds Stream returns the error, the gRPC handler returns, the stream context is cancelled
+			c.cancel()
+			c.closed = true
+			add("SO (SClientFail " + vlib.NI(i) + ")")
+			tags["send-failed-mid-push"] = true
+		} else {
+			add("SO (SClientDone " + vlib.NI(i) + ")")
+		}
+		inuse--
+		c.state = idle
+		if c.merged {
+			c.merged = false
+			c.state = waiting
+			fifo = append(fifo, i)
 		}
 		advance()
 	}
@@ -995,16 +1084,7 @@ func runSender(id int, rr *vlib.Rand) dbResult {
 			}
 		case x < 85:
 			if c.state == handedSt {
-				pxds.VerifEventDone(c.ev)
-				add("SO (SClientDone " + vlib.NI(i) + ")")
-				inuse--
-				c.state = idle
-				if c.merged {
-					c.merged = false
-					c.state = waiting
-					fifo = append(fifo, i)
-				}
-				advance()
+				finish(i)
 			}
 		case x < 95:
 			if c.closed {
@@ -1063,16 +1143,7 @@ func runSender(id int, rr *vlib.Rand) dbResult {
 				}
 				progressed = true
 			case c.state == handedSt:
-				pxds.VerifEventDone(c.ev)
-				add("SO (SClientDone " + vlib.NI(i) + ")")
-				inuse--
-				c.state = idle
-				if c.merged {
-					c.merged = false
-					c.state = waiting
-					fifo = append(fifo, i)
-				}
-				advance()
+				finish(i)
 				progressed = true
 			}
 		}
@@ -1130,7 +1201,7 @@ func senderCases(c *vlib.Collector, r *vlib.Rand, id *int, count int) {
 		}
 		triv := true
 		for _, t := range res.tags {
-			if t == "enq-during-push" || t == "closed-while-parked" || t == "drop-on-park" {
+			if t == "enq-during-push" || t == "closed-while-parked" || t == "drop-on-park" || t == "send-failed-mid-push" {
 				triv = false
 			}
 		}
@@ -1180,7 +1251,7 @@ func TestGen(t *testing.T) {
 	c.Rule = "heap: 2-4 PushRequests with randomly shared/nil/empty maps, 1-3 real Merge/CopyMerge calls, full deep view + map identities after every call; " +
 		"queue: random Enqueue/Dequeue/MarkDone/Pending/ShutDown over 1-4 connections with requests shared between connections, drained at the end (non-trivial = an Enqueue hit a connection in flight or one request went to all connections); " +
 		"debounce: the real loop through the export shim with an unbuffered channel and a blocking pushFn, phase-scripted bursts (idle / during a running push / beyond debounceMax), groups read off the observed pushes (non-trivial = a merge, an event during a push or an EDS bypass happened); " +
-		"sender: the real doSendPushes with fake streams whose contexts are cancelled while events are parked (non-trivial = enqueue during a push, close while parked)."
+		"sender: the real doSendPushes; the harness plays the pkg/xds Stream loop of every SotW client: it receives the Event from PushCh and calls the REAL Connection.Push (pushConnection -> pushXds -> stream.Send) on a stream whose Send fails on the k-th response now and then (the stream then ends, as gRPC does); stream contexts are also cancelled while events are parked; semaphore capacity 1-3 (non-trivial = enqueue during a push, close while parked, send failure mid-push)."
 	seed := vlib.Seed()
 	r := vlib.NewRand(seed*0x9e3779b9 + 0xc02)
 	id := 0
